@@ -37,6 +37,7 @@ COMPONENTS = {
 }
 EXPECTED_PROBES = ["writer_to_parquet", "writer_pack", "ge_11_partitions", "read_list",
                    "read_list_unsorted", "rewrite_after_filter", "one_axis_reversed",
+                   "box_covers_total_extent",
                    "read_glob", "bounds_kw", "geometry_kw", "box_touches_partition_extent",
                    "box_disjoint_from_all", "partition_with_undefined_extent", "pruned_some",
                    "end_to_end_cx"]
@@ -69,7 +70,7 @@ def cases(tier, base_seed):
                           "list_reversed": rng.random() < 0.5,
                           "geometry": rng.choice([None, None] + geo),
                           "bounds": rng.choice(("none", "box", "box", "aligned", "aligned",
-                                                "disjoint")),
+                                                "disjoint", "cover", "cover")),
                           "box": gen.gen_box(rng), "pick": rng.getrandbits(16),
                           "reverse": rng.choice((0, 0, 0, 1, 2, 3))})   # bit0: x ends, bit1: y ends
         rewrite = {"mod": rng.choice((2, 3)), "rem": rng.randint(0, 1)} \
@@ -258,6 +259,13 @@ def _drive(case, root, fs, probes, sig):
         elif r["bounds"] == "disjoint":
             box = [100.0, 100.0, 120.0, 130.0]
             probes["box_disjoint_from_all"] = 1
+        elif r["bounds"] == "cover" and good:
+            # a box covering every extent: exactly the total extent, or a larger one
+            tb = [min(e[0] for e in good), min(e[1] for e in good),
+                  max(e[2] for e in good), max(e[3] for e in good)]
+            pad = 0.0 if r["pick"] % 2 else 1.0
+            box = [tb[0] - pad, tb[1] - pad, tb[2] + pad, tb[3] + pad]
+            probes["box_covers_total_extent"] = 1
         rv = int(r["reverse"]) if r["reverse"] is not True else 3
         qbox = list(box)
         if rv & 1:
